@@ -136,6 +136,63 @@ int main(int argc, char** argv)
         }
     };
     auto rep = sh.run();
+    // a parser object that held another declaration before (move assignment): nothing of the old declaration may
+    // decide how the tokens of the new one are accounted for
+    {
+        auto mk = [](std::vector<Item> items) {
+            Decl D;
+            D.items = items;
+            D.accepted = 1;
+            return D;
+        };
+        std::vector<std::pair<Decl, Decl>> pairs = {
+            // letters u / o change their meaning: toggle -> option, option -> toggle, declared -> undeclared
+            { mk({ Item::tog("tog", "t"), Item::tog("ugg", "u"), Item::opt("opt", "o") }), mk({ Item::tog("tog", "t"), Item::opt("ugg", "u"), Item::tog("opt", "o") }) },
+            { mk({ Item::tog("tog", "t"), Item::tog("ugg", "u"), Item::tog("zed", "z") }), mk({ Item::tog("tog", "t"), Item::opt("opt", "o") }) },
+            { mk({ Item::opt("opt", "o"), Item::multi("multi", "m") }), mk({ Item::tog("opt", "o"), Item::tog("tog", "t") }) },
+            { mk({}), mk({ Item::tog("tog", "t"), Item::tog("ugg", "u") }) },
+        };
+        std::vector<std::vector<std::string>> olds = { {}, { "-t" }, { "-tu" }, { "--zz" } };
+        auto sh3 = sharded(a, "C01assign");
+        sh3.prop = "C01";
+        sh3.walk = [&](mc::Ctx& ctx) {
+            for (auto& pr : pairs)
+                for (auto& old : olds)
+                    for_all_vectors(alphabet(pr.second), a.asan() ? 1 : 2, ctx, [&](const std::vector<std::string>& av) {
+                        long idx = ctx.next;
+                        ctx.each([&] { return chk.describe(pr.second, av, {}); },
+                                 [&](mc::Report& rep) { chk.run_after_replace(pr.first, old, pr.second, av, rep, idx); });
+                    });
+        };
+        auto rep3 = sh3.run();
+        rep3.counters.erase("wall_ms");
+        rep.merge(rep3);
+    }
+    // thorough: one token deeper on the six richest declarations (all kinds with short names, both toggles)
+    int deep = 0;
+    if (a.thorough() && !a.asan())
+    {
+        deep = n + 1;
+        std::vector<Decl> rich;
+        for (auto& D : decls)
+            if (D.items.size() == 4 && D.by_short("o") && D.by_short("m") && D.by_short("t") && D.by_short("u") && D.items[2].rev)
+                rich.push_back(D);
+        auto sh2 = sharded(a, "C01deep");
+        sh2.prop = "C01";
+        sh2.walk = [&](mc::Ctx& ctx) {
+            for (auto& D : rich)
+                for_all_vectors(alphabet(D), deep, ctx, [&](const std::vector<std::string>& av) {
+                    long idx = ctx.next;
+                    ctx.each([&] { return chk.describe(D, av, {}); },
+                             [&](mc::Report& rep) { chk.run_case(D, av, {}, rep, idx); });
+                }, deep);
+        };
+        auto rep2 = sh2.run();
+        rep2.counters.erase("wall_ms");
+        rep.merge(rep2);
+        rep.counters["declarations_at_deep_bound"] = rich.size();
+    }
+    rep.counters["bound_argv_len_deep"] = deep;
     rep.counters["bound_argv_len"] = n;
     rep.counters["declarations"] = decls.size();
     rep.notes["rule"] = "every declaration of the 540-grid x every argument vector of length <= bound over the "
